@@ -273,6 +273,24 @@ func genSyncTab(repo string) (string, error) {
 		}
 	})
 	regEmpty, regChans, sendsAll := false, false, false
+	skipTopics, skipChans := false, false
+	// `if x.Exiting() { continue }` as a direct statement of a loop body
+	skipsExiting := func(body *ast.BlockStmt) bool {
+		for _, st := range body.List {
+			is, ok := st.(*ast.IfStmt)
+			if !ok {
+				continue
+			}
+			c, ok := is.Cond.(*ast.CallExpr)
+			if !ok || callName(c) != "Exiting" || len(is.Body.List) == 0 {
+				continue
+			}
+			if br, ok := is.Body.List[len(is.Body.List)-1].(*ast.BranchStmt); ok && br.Tok == token.CONTINUE {
+				return true
+			}
+		}
+		return false
+	}
 	ast.Inspect(lit.Body, func(n ast.Node) bool {
 		r, ok := n.(*ast.RangeStmt)
 		if !ok {
@@ -280,6 +298,7 @@ func genSyncTab(repo string) (string, error) {
 		}
 		switch rangeOver(r) {
 		case "topicMap":
+			skipTopics = skipsExiting(r.Body)
 			for _, c := range findCalls(r.Body, func(c *ast.CallExpr) bool { return qualName(c) == "nsq.Register" && len(c.Args) == 2 }) {
 				if l, ok := c.Args[1].(*ast.BasicLit); ok && l.Kind == token.STRING && l.Value == `""` {
 					regEmpty = true
@@ -287,6 +306,7 @@ func genSyncTab(repo string) (string, error) {
 			}
 			ast.Inspect(r.Body, func(m ast.Node) bool {
 				if r2, ok := m.(*ast.RangeStmt); ok && rangeOver(r2) == "channelMap" {
+					skipChans = skipsExiting(r2.Body)
 					for _, c := range findCalls(r2.Body, func(c *ast.CallExpr) bool { return qualName(c) == "nsq.Register" && len(c.Args) == 2 }) {
 						if _, isLit := c.Args[1].(*ast.BasicLit); !isLit {
 							regChans = true
@@ -307,6 +327,8 @@ func genSyncTab(repo string) (string, error) {
 	def("nsqd_cc_closes_on_bad_identify_reply", closeEInvalid && closeBadJSON)
 	def("nsqd_cc_registers_empty_topics", regEmpty && sendsAll)
 	def("nsqd_cc_registers_channels", regChans && sendsAll)
+	def("nsqd_cc_skips_exiting_topics", skipTopics)
+	def("nsqd_cc_skips_exiting_channels", skipChans)
 
 	// ---- lookupLoop
 	ll := p.method("NSQD", "lookupLoop")
